@@ -35,7 +35,7 @@
 //	                                  ticks (0 unset, ≥100 = longer than any case); m max_fails
 //	                                  (0 unset); r retries; q unhealthy_request_count (0 unset);
 //	                                  s number of unhealthy_status entries matching 500 (0..2)
-//	B:<keys>                          a load that fails in Provision before the upstreams are set up
+//	B:<keys>                          a load that fails in Provision before the upstreams are set up (its Cleanup must not touch the pool)
 //	C                                 unload the current configuration (no successor)
 //	N:<G|P>                           new GET / POST request on the current configuration
 //	O:<r>:<ok|e5|rst|hup|pan|her>     backend's answer to parked request r: 200 | 500 | close
@@ -80,9 +80,6 @@ import (
 
 const longD = 100 // fail_duration ≥ longD ticks never elapses inside a case
 
-// knownClass is the failure class of the defect of the unchanged tree (known_findings.jsonl).
-const knownClass = "host-not-preserved-after-failed-provision"
-
 // enoughFailures: once this many generated cases have failed the oracle the run stops
 // generating (the check needs one failing input, not ten thousand slow ones).
 const enoughFailures = 40
@@ -115,7 +112,7 @@ type prop struct {
 	cache   sync.Map // line -> core.Outcome, filled by Generate's worker pool
 	nextDir atomic.Int64
 	slow    atomic.Int64 // cases in which a due forgetter did not run / a request hung
-	failed  atomic.Int64 // cases with an oracle failure other than the known finding
+	failed  atomic.Int64 // cases with an oracle failure
 	stats   struct {
 		sync.Mutex
 		retimed int
@@ -1125,11 +1122,8 @@ func (p *prop) execSched(K int, src stepSource, minAttempt int) (core.Outcome, [
 		if len(k.reqs) == 0 {
 			tags = append(tags, "trivial")
 		}
-		for _, f := range k.failures {
-			if f.Class != knownClass {
-				p.failed.Add(1)
-				break
-			}
+		if len(k.failures) > 0 {
+			p.failed.Add(1)
 		}
 		return core.Outcome{Impl: impl, Tags: tags, Failures: k.failures}, k.done
 	}
